@@ -92,6 +92,10 @@ func Generate(r *sim.Rng, prop, tier string, idx int) *sim.Case {
 	if r.Chance(1, 5) {
 		c.Knobs["wrap_errors"] = 1 // a storage that annotates its errors (errors.Is still identifies them)
 	}
+	if r.Chance(1, 3) {
+		// a remote storage: failures arrive as gRPC status errors (see injErrs)
+		c.Knobs["err_kind"] = int64(1 + r.Intn(5))
+	}
 	hangs := false
 	for _, f := range c.Faults {
 		if f.Kind == "stall_lost" || f.Kind == "stall" {
